@@ -46,6 +46,24 @@ CLAIMED = {
              "after its items are in the pipe); start/end always explicit; "
              "border pairs within 1 mm of max_distance are not verdict "
              "relevant; worker kills are not injected."),
+    "C15": dict(
+        category="fault_enumeration", design_ref="DESIGN.md 3/C15",
+        technique="deterministic simulation with crash-point enumeration: every "
+                  "numbered disk step of save_cache (incl. torn flushes) is "
+                  "crashed once per sampled history, then restart and "
+                  "old-or-new / round-trip / corruption oracles",
+        text="Seeded cache histories (populate, save, clean exit via atexit, "
+             "crash exit, restart, load, find, external corruption) run against "
+             "a step-counting disk seam with a modelled user-space write buffer "
+             "(size randomised per run); for every save in a history every "
+             "disk step is crashed once (torn variants for flushes) and the "
+             "restarted FileSet must see byte-for-byte the old or the new "
+             "document and load it without warning. Crash points are "
+             "enumerated exhaustively per history; histories are sampled.",
+        note="Crash = process death (completed syscalls persist, rename atomic, "
+             "un-flushed user-space buffer lost); power-failure reordering is "
+             "not modelled. A missing cache file needs no warning (documented "
+             "as allowed); malformed/unreadable files need one."),
 }
 
 NOT_APPLICABLE = {
